@@ -830,7 +830,7 @@ def Val.deepM (m : Mode) : Val → JV
   | .float f => .float f
   | .str s => .str s
   | .arr xs => .arr (Val.deepMList m xs)
-  | .obj kvs => .obj (objOfList (Val.deepMKvs m kvs))
+  | .obj kvs => .obj (Val.deepMKvs m kvs)     -- plain maps are kept sorted (objSet / objOfList)
   | .dv d => if m.impl then d.goJQ else d.specDeep
   | .ext _ => .null
   | .garr xs => .arr xs
